@@ -63,7 +63,13 @@ pub fn parse_choice(
     // Only scan when there is no start text yet on the header line.
     // We scan when: the header has conditions OR we absorb body conditions.
     let header_has_conditions = !conditions.is_empty();
-    if choice_text.start_text.is_empty() && choice_text.choice_only_text.is_empty() {
+    // After `->` the choice line is over: `* {cond} ->` is a conditional fallback choice
+    // and the lines that follow are its content, not its text.
+    let header_ends_in_arrow = remainder.trim_start().starts_with("->");
+    if choice_text.start_text.is_empty()
+        && choice_text.choice_only_text.is_empty()
+        && !header_ends_in_arrow
+    {
         let mut absorbed_body_conditions = false;
         while *line_index < lines.len() {
             let peek = &lines[*line_index];
